@@ -959,3 +959,131 @@ Proof.
   unfold gstep. rewrite Ha. simpl. rewrite Nat.eqb_refl. simpl. unfold end_call. rewrite Hn. simpl.
   rewrite ?Nat.eqb_refl. reflexivity.
 Qed.
+
+(* ---------- the guard on timed histories: the oracle accepts what the model does ---------- *)
+
+Fixpoint starts_from (T : Z) (cs : list hcall) : Prop :=
+  match cs with
+  | [] => True
+  | c :: r => T <= hc_start c /\ 0 <= hc_dur c /\ starts_from (hc_start c) r
+  end.
+
+Definition hinv (earlier : list gobs) (g : gst) (act : option (nat * Z)) (T : Z) : Prop :=
+  ginv g /\
+  match act with
+  | Some (aid, rt) => g_active g = [aid] /\ exists p, In p earlier /\ go_out p = 0 /\ go_start p <= T /\ go_ret p = rt
+  | None => g_active g = []
+  end /\
+  forall p, In p earlier -> go_out p = 0 ->
+    go_start p <= T /\ (go_ret p <= T \/ match act with Some (_, rt) => go_ret p = rt | None => False end).
+
+Lemma gcall_idle : forall g id, g_active g = [] -> ginv g ->
+  gstep g (GCall id 0 0) = ({| g_numops := 1; g_active := [id] |}, GO_call Started).
+Proof.
+  intros g id Ha [[_ Hn]|[x [Hx _]]]; [|congruence].
+  unfold gstep, begin_call. simpl. rewrite Hn, Ha. reflexivity.
+Qed.
+
+Lemma gcall_busy : forall g id x, g_active g = [x] -> ginv g ->
+  gstep g (GCall id 0 0) = ({| g_numops := 1; g_active := [x] |}, GO_call PanicBusy).
+Proof.
+  intros g id x Ha [[Ha' _]|[y [Hy Hn]]]; [congruence|].
+  unfold gstep, begin_call. simpl. rewrite Hn, Ha. reflexivity.
+Qed.
+
+Lemma gcall_len : forall g id,
+  gstep g (GCall id 1 0) = ({| g_numops := g_numops g; g_active := g_active g |}, GO_call PanicLen).
+Proof. intros. reflexivity. Qed.
+
+Lemma ginv_eta : forall g, ginv g -> ginv {| g_numops := g_numops g; g_active := g_active g |}.
+Proof. intros g H. exact H. Qed.
+
+Lemma in_progress_false : forall earlier t,
+  (forall p, In p earlier -> go_out p = 0 -> go_ret p <= t) -> in_progress_at earlier t = false.
+Proof.
+  intros earlier t H. unfold in_progress_at. destruct (existsb _ earlier) eqn:He; auto.
+  apply existsb_exists in He. destruct He as [p [Hin Hb]].
+  apply andb_true_iff in Hb. destruct Hb as [Hb H3]. apply andb_true_iff in Hb. destruct Hb as [H1 H2].
+  apply Z.eqb_eq in H1. apply Z.ltb_lt in H3. specialize (H p Hin H1). lia.
+Qed.
+
+Lemma hist_ok : forall cs earlier g act id T,
+  hinv earlier g act T -> starts_from T cs -> guard_ok_from earlier (hist_model g act id cs) = true.
+Proof.
+  induction cs as [|c r IH]; intros earlier g act id T Hinv Hs; [reflexivity|].
+  destruct Hs as [HT [Hdur Hs]]. destruct Hinv as [Hg [Hact Hall]].
+  set (t := hc_start c) in *.
+  (* state after retiring the call in progress, if it is over *)
+  assert (Hret : exists g1 act1,
+      hist_retire g act c = (g1, act1) /\
+      ginv g1 /\
+      match act1 with
+      | Some (aid, rt) => g_active g1 = [aid] /\ t <= rt /\
+                          exists p, In p earlier /\ go_out p = 0 /\ go_start p <= t /\ go_ret p = rt
+      | None => g_active g1 = []
+      end /\
+      forall p, In p earlier -> go_out p = 0 ->
+        go_start p <= t /\ (go_ret p <= t \/ match act1 with Some (_, rt) => go_ret p = rt | None => False end)).
+  { destruct act as [[aid rt]|].
+    - destruct Hact as [Ha [p [Hp [Ho [Hst Hrt]]]]]. unfold hist_retire. fold t.
+      destruct ((rt <? t) || ((rt =? t) && hc_return_first c)) eqn:Hc.
+      + exists (fst (gstep g (GReturn aid))), None. split; [reflexivity|].
+        rewrite (guard_return g aid Ha Hg). simpl. split; [left; auto|]. split; auto.
+        intros q Hq Hqo. destruct (Hall q Hq Hqo) as [H1 [H2|H2]]; split; try lia; left; lia.
+      + exists g, (Some (aid, rt)). split; [reflexivity|]. split; auto.
+        apply orb_false_iff in Hc. destruct Hc as [Hc _]. apply Z.ltb_ge in Hc.
+        split.
+        * split; auto. split; auto. exists p. repeat split; auto; lia.
+        * intros q Hq Hqo. destruct (Hall q Hq Hqo) as [H1 [H2|H2]]; (split; [lia|]); [left; lia|right; auto].
+    - exists g, None. split; [reflexivity|]. split; auto. split; auto.
+      intros q Hq Hqo. destruct (Hall q Hq Hqo) as [H1 [H2|[]]]. split; [lia|left; lia]. }
+  destruct Hret as [g1 [act1 [Heq [Hg1 [Hact1 Hall1]]]]].
+  cbn [hist_model]. rewrite Heq. cbn [fst snd]. fold t.
+  destruct (hc_lens c) eqn:Hl.
+  - (* lengths equal *)
+    destruct act1 as [[aid rt]|].
+    + (* a call is in progress: refused *)
+      destruct Hact1 as [Ha [Hrt [p [Hp [Ho [Hst Hpr]]]]]].
+      rewrite (gcall_busy g1 id aid Ha Hg1). cbn [fst snd guard_ok_from go_lens go_out go_start].
+      apply andb_true_iff. split.
+      * destruct (in_progress_at earlier t) eqn:Hip; [reflexivity|].
+        destruct (returning_at earlier t) eqn:Hra; [reflexivity|]. exfalso.
+        assert (Hne : forall f, existsb f earlier = false -> f p = false).
+        { intros f Hf. destruct (f p) eqn:Hfp; auto.
+          assert (existsb f earlier = true) by (apply existsb_exists; eauto). congruence. }
+        apply Hne in Hip. apply Hne in Hra. rewrite Ho, Hpr in *. simpl in *.
+        replace (go_start p <=? t) with true in * by (symmetry; apply Z.leb_le; lia). simpl in *.
+        apply Z.ltb_ge in Hip. apply Z.eqb_neq in Hra. lia.
+      * apply (IH _ _ (Some (aid, rt)) (S id) t); auto.
+        split; [right; exists aid; auto|]. split.
+        -- split; auto. exists p. repeat split; auto. apply in_or_app; auto.
+        -- intros q Hq Hqo. apply in_app_or in Hq. destruct Hq as [Hq|[<-|[]]]; [|simpl in Hqo; discriminate].
+           apply Hall1; auto.
+    + (* idle: let in *)
+      rewrite (gcall_idle g1 id Hact1 Hg1). cbn [fst snd guard_ok_from go_lens go_out go_start].
+      apply andb_true_iff. split.
+      * rewrite in_progress_false.
+        -- destruct (returning_at earlier t); reflexivity.
+        -- intros q Hq Hqo. destruct (Hall1 q Hq Hqo) as [_ [H|[]]]. auto.
+      * apply (IH _ _ (Some (id, t + hc_dur c)) (S id) t); auto.
+        split; [right; exists id; auto|]. split.
+        -- split; auto. eexists. split; [apply in_or_app; right; left; reflexivity|]. simpl. repeat split; lia.
+        -- intros q Hq Hqo. apply in_app_or in Hq. destruct Hq as [Hq|[<-|[]]].
+           ++ destruct (Hall1 q Hq Hqo) as [H1 [H2|[]]]. split; auto.
+           ++ simpl. split; [lia|right; auto].
+  - (* lengths differ *)
+    rewrite gcall_len. cbn [fst snd guard_ok_from go_lens go_out go_start]. simpl negb. simpl andb.
+    apply (IH _ _ act1 (S id) t); auto.
+    split; [apply ginv_eta; auto|]. split.
+    + destruct act1 as [[aid rt]|]; simpl; auto.
+      destruct Hact1 as [Ha [Hrt [p [Hp [Ho [Hst Hpr]]]]]]. split; auto.
+      exists p. repeat split; auto. apply in_or_app; auto.
+    + intros q Hq Hqo. apply in_app_or in Hq. destruct Hq as [Hq|[<-|[]]]; [|simpl in Hqo; discriminate].
+      apply Hall1; auto.
+Qed.
+
+Lemma guard_oracle_model : forall cs T, starts_from T cs -> C16_guard_ok (hist_model ginit None 0 cs) = true.
+Proof.
+  intros cs T Hs. unfold C16_guard_ok. apply (hist_ok cs [] ginit None 0%nat T); auto.
+  split; [apply ginv_init|]. split; [reflexivity|]. intros p [].
+Qed.
